@@ -48,3 +48,34 @@ Example C03_nonvacuous :
   bind p [s "3"; s "10"] true = Bound (VInt 10) /\ bind p [s "1"] true = Reject /\ bind p [] false = Reject /\
   bind p [s ""] true = Reject /\ bind p [s "-1"] true = Reject /\ bind p [s "4294967296"] true = Reject.
 Proof. repeat split; vm_compute; reflexivity. Qed.
+
+(* ---------- nested array parameters ---------- *)
+(* restricted to leaves, the nested model is the one-level model above *)
+Theorem C03_nested_generalises_flat : forall p rd hk,
+  ap_multi p = false -> bind_nested (lift_param p) rd hk = lift_outcome (bind_array p rd hk).
+Proof. exact nested_generalises_flat. Qed.
+Print Assumptions C03_nested_generalises_flat.
+
+(* what the handler is given: every leaf is a converted text that satisfies the leaf's constraints, the outer item
+   counts hold and, when asked for, the outer elements are distinct as values *)
+Theorem C03_nested_values : forall p rd hk vs, bind_nested p rd hk = NBound vs ->
+  forallb (leaves_ok (np_items p)) vs = true /\
+  len_ok (np_minitems p) (np_maxitems p) (length vs) = true /\ (np_unique p = true -> distinct_nvalues vs = true).
+Proof. exact bind_nested_values. Qed.
+Print Assumptions C03_nested_values.
+
+(* an inner level is accepted only with its item counts in range and, when unique, with parts that differ as texts *)
+Theorem C03_nested_inner_checks : forall sep mn mx u inner raw o,
+  conv_elem (NArr sep mn mx u inner) raw = Some o ->
+  len_ok mn mx (length (split_by sep raw)) = true /\ (u = true -> distinct_texts (split_by sep raw) = true).
+Proof. exact conv_elem_inner_checks. Qed.
+Print Assumptions C03_nested_inner_checks.
+
+(* ... which is weaker than what the specification asks: equal values written differently pass an inner uniqueItems.
+   The unchanged generator has this gap (known finding c03/handler-reached-for-invalid-request[nested-array-uniqueItems-compared-as-text]) *)
+Example C03_nested_unique_refuted :
+  let int32 := PInt (-2147483648) 2147483647 None false None false in
+  let p := {| np_required := false; np_allow_empty := false; np_sep := 124; np_items := NArr 44 None None true (NLeaf int32);
+              np_minitems := None; np_maxitems := None; np_unique := false |} in
+  bind_nested p [s "1,01"] true = NBound [NL [NV (VInt 1); NV (VInt 1)]].
+Proof. vm_compute. reflexivity. Qed.
